@@ -14,6 +14,7 @@ META = dict(
 
 
 def suites(tier):
+    import os
     q = tier == "quick"
     jobs = []
     for wn, field in ((0, 1), (1, 1), (1, 2)):
@@ -25,6 +26,11 @@ def suites(tier):
     jobs.append(dict(id="output", func="zzH_C07_output", cfg={}))
     for colored in (0, 1):
         for kind in ((2,) if q else (2, 1, 0)):
-            cfg = dict(colored=colored, bytes=kind, nmax=(3 if kind == 2 else 2) if q else (3 if kind == 2 else 2))
+            if os.environ.get("VERIF_DBG_KIND") and str(kind) != os.environ["VERIF_DBG_KIND"]:
+                continue
+            cfg = dict(colored=colored, bytes=kind, nmax=(3 if kind == 2 else 2) if q else {2: 4, 1: 3, 0: 2}[kind], recs=2 if kind == 2 else 1)
             jobs.append(dict(id=jid("ansi", cfg), func="zzH_C07_ansi", cfg=cfg))
+    import os
+    if os.environ.get("VERIF_ONLY_JOBS"):
+        jobs = [j for j in jobs if os.environ["VERIF_ONLY_JOBS"] in j["id"]]
     return [src_suite("src", jobs)]
